@@ -81,11 +81,21 @@ func (e *Enc) script() string {
 	for _, k := range sortedKeys(e.boxDecls) {
 		fmt.Fprintf(&b, "(declare-fun %s (%s) Int)\n", k, e.boxDecls[k])
 	}
-	// ToLower is evaluated by gvc itself on every string literal of the script
+	// some uninterpreted string functions are evaluated by gvc itself on every string literal of the script
 	if e.usedUF["lower"] {
 		for i := 0; i < len(e.reg.strList); i++ {
 			lit := e.reg.strList[i]
 			fmt.Fprintf(&b, "(assert (= (uf_lower %s) %s))\n", e.reg.strLit(lit).S, e.reg.strLit(strings.ToLower(lit)).S)
+		}
+	}
+	if e.usedUF["runes"] {
+		for i := 0; i < len(e.reg.strList); i++ {
+			fmt.Fprintf(&b, "(assert (= (uf_runes %s) %d))\n", e.reg.strLit(e.reg.strList[i]).S, len([]rune(e.reg.strList[i])))
+		}
+	}
+	if e.usedUF["endsNL"] {
+		for i := 0; i < len(e.reg.strList); i++ {
+			fmt.Fprintf(&b, "(assert (= (uf_endsNL %s) %v))\n", e.reg.strLit(e.reg.strList[i]).S, strings.HasSuffix(e.reg.strList[i], "\n"))
 		}
 	}
 	for _, l := range e.lines {
